@@ -14,6 +14,13 @@
 (*                    input length 0..n, IFFT, vanishing polynomial and       *)
 (*                    Lagrange coefficients at every field element (small p)  *)
 (*                    or at domain and off-domain samples                     *)
+(*  MODE = "fftbig" : domains of MAXN/4..MAXN elements: FFT / IFFT at the      *)
+(*                    lengths around the degree-aware threshold               *)
+(*  MODE = "polybig": polynomials of 15..MAXN coefficients (lengths around    *)
+(*                    16, 32, 64, 128, 256 and between): evaluation, linear   *)
+(*                    operations, products and quotients with small and large *)
+(*                    operands - the sizes at which the chunked / parallel    *)
+(*                    code paths of ark-poly split their input                *)
 (* Invariant: the specification's own theorems (ring laws, division identity, *)
 (* interpolation inverts evaluation, Lagrange basis property).                *)
 (***************************************************************************)
@@ -29,7 +36,7 @@ MCGEN   == FC.gen
 MCTWO   == FC.two_adicity
 MCSBASE == IF "small_subgroup_base" \in DOMAIN FC THEN FC.small_subgroup_base ELSE 0
 MCSPOW  == IF "small_subgroup_power" \in DOMAIN FC THEN FC.small_subgroup_power ELSE 0
-MCNREG  == IF MODE = "arith" THEN 2 ELSE 1
+MCNREG  == IF MODE \in {"arith", "polybig"} THEN 2 ELSE 1
 
 Fp == 0..(P - 1)
 Polys(deg) == {Trim(c) : c \in UNION {[1..k -> Fp] : k \in 0..deg}}
@@ -37,7 +44,13 @@ Sizes == {n \in Radix2Sizes \cup MixedSizes : n <= MAXN}
 Offsets == {1, FGEN, FpMul(P, FGEN, FGEN), FpNeg(P, 1)}
 Doms == {Dom(n, h) : n \in Sizes, h \in Offsets}
 
-MCInit == /\ regs \in [Reg -> (IF MODE \in {"domain", "fftbig"} THEN {<<>>} ELSE Polys(DEG))]
+\* large patterned polynomials
+BigLens == {n \in {15, 16, 17, 18, 31, 32, 33, 34, 47, 48, 49, 63, 64, 65, 66, 100, 127, 128, 129, 130, 200, 255, 256, 257, 258, 300, 511, 512, 513, 1000, 1023, 1024, 1025} : n <= MAXN}
+Pat(len, k) == Trim([i \in 1..len |-> CASE k = 1 -> (i * i + 3) % P [] k = 2 -> 1 [] k = 3 -> (7 * i + 1) % P [] k = 4 -> (IF i = len THEN 1 ELSE 0)] \o <<>>)
+BigPolys == {Pat(len, k) : len \in BigLens, k \in 1..2}
+SecondPolys == {<<>>, Pat(1, 3), Pat(3, 3), Pat(17, 3), Pat(17, 4), Pat(65, 3)}
+MCInit == /\ IF MODE = "polybig" THEN regs \in {<<a, b>> : a \in BigPolys, b \in SecondPolys}
+             ELSE regs \in [Reg -> (IF MODE \in {"domain", "fftbig"} THEN {<<>>} ELSE Polys(DEG))]
           /\ ev = [op |-> "init"]
 
 ArithNext ==
@@ -81,8 +94,17 @@ FftBigNext ==
       \/ \E kind \in 1..4 : DomQuery("ifft", Dom(n, h), 0, 0, BigVec(n, kind))
       \/ DomQuery("elements", Dom(n, h), 0, 0, <<>>)
       \/ \E tau \in {2, FGEN} : DomQuery("lagrange_all", Dom(n, h), 0, tau, <<>>)
+PolyBigNext ==
+    \/ \E x \in {0, 1, 2, P - 1, FGEN} : Query("evaluate", 1, 1, x)
+    \/ Neg(1) \/ Scale(1, 2) \/ Scale(1, 0)
+    \/ \E op \in {"add", "sub", "mul"} : Bin(op, 1, 2) \/ Bin(op, 2, 1)
+    \/ (Len(regs[2]) > 0 /\ Bin("div", 1, 2))
+    \/ AddScaled(1, 3, 2) \/ AddScaled(2, P - 1, 1)
+    \/ Bin("add", 1, 1) \/ Bin("sub", 1, 1)
+    \/ \E op \in {"degree", "is_zero", "coeffs", "terms"} : Query(op, 1, 1, 0)
+    \/ Query("eq", 1, 2, 0)
 MCNext == /\ ev.op = "init"
-          /\ CASE MODE = "arith" -> ArithNext [] MODE = "unary" -> UnaryNext [] MODE = "domain" -> DomainNext [] MODE = "fftbig" -> FftBigNext
+          /\ CASE MODE = "polybig" -> PolyBigNext [] MODE = "arith" -> ArithNext [] MODE = "unary" -> UnaryNext [] MODE = "domain" -> DomainNext [] MODE = "fftbig" -> FftBigNext
 
 View == regs
 Emit == EmitLine(ToJson([pre |-> regs, ev |-> ev', post |-> regs']))
